@@ -148,4 +148,4 @@ def register(world):
     if 'tangermeme.utils._validate_input' not in world.contracts:
         world.register(ValidateInput())
     world.register(CountAnnotations())
-    world.contracts[SpacingPairBody.key] = SpacingPairBody()
+    world.register_fragment(SpacingPairBody())
